@@ -29,7 +29,7 @@ def write_conf(d, aperture_dependent, logd_step=0.1, version=1, name='verif', le
             f.write("version = %d\n" % version)
 
 
-def write_parameters(d, names, columns, order=None, pad=30, gz=False):
+def write_parameters(d, names, columns, order=None, pad=30, gz=False, name_pos=0):
     """columns: dict name -> sequence (same order as names); order: row permutation."""
     names = [str(n) for n in names]
     idx = list(range(len(names))) if order is None else list(order)
@@ -40,6 +40,8 @@ def write_parameters(d, names, columns, order=None, pad=30, gz=False):
             cols.append(fits.Column(name=cname, format='%dA' % max(1, v.dtype.itemsize // (4 if v.dtype.kind == 'U' else 1)), array=v[idx]))
         else:
             cols.append(fits.Column(name=cname, format='D', array=np.asarray(vals, float)[idx]))
+    if name_pos:            # the format allows the columns in any order
+        cols.insert(min(name_pos, len(cols) - 1), cols.pop(0))
     hdu0 = fits.PrimaryHDU()
     hdu0.header['NMODELS'] = len(names)
     hdu1 = fits.BinTableHDU.from_columns(cols)
